@@ -22,6 +22,8 @@ import BumpverVerif.Model.V2Version
 import BumpverVerif.Model.Pep440
 import BumpverVerif.Model.PepTree
 import BumpverVerif.Proofs.PepTreeLemmas
+import BumpverVerif.Model.PepOfRecord
+import BumpverVerif.Proofs.PepParseLemmas
 namespace BV
 
 private def S (s : String) : Str := s.toList
@@ -288,6 +290,177 @@ theorem C15_readme_derived_normal :
     readmeConversions.all (fun pq => match tokenize pq.1.toList with
       | some p => p.toPep.pepNormal
       | none => false) = true := by
+  decide +kernel
+
+/-! ## The written text IS a PEP 440 version with the right content
+
+  `pepOfRecord q v` (Model/PepOfRecord.lean) is the version the record denotes under the derived tree `q`: release =
+  the numbers of the dot-separated components (the first one may be several adjacent parts, `YYYY0M` -> 202403), pre /
+  post / dev from `pytag` / `num` when the tag is rendered (`a` `b` `rc` -> pre, `post` -> post, `dev` -> dev), none
+  of them when `[PYTAGNUM]` is omitted (final release), epoch 0, no local part.  `parsePep` is C16's model of the
+  vendored PEP 440 parser (`Version.__init__`). -/
+
+/-- "THE TEXT WRITTEN FOR `{pep440_version}` IS A VALID PEP 440 VERSION" with the record's content: for a derived tree
+    in normal form (`Pat.pepNormal`, see `C15_normal_form_parts`) of the parseable shape (`Pat.pepParseable`: a first
+    component made of numeric parts; then `.PART` components and optional groups; the tag sequence last) and a record
+    in its domain, the vendored parser ACCEPTS the rendered text and reads exactly `pepOfRecord q v`, a well-formed
+    version.  Bumpver writes `1.2.3post0` / `1.2.3dev0` without the `.` of the canonical form: the parser accepts
+    the undotted spelling (`postSeg`, `devSeg`).
+    Neither `Pat.wfTop q` nor `pepReady v` is needed here: `Pat.vok v q` already says that a rendered PYTAG is a
+    short tag.  (`C15_vok_transfer` derives `Pat.vok v p.toPep` from the original pattern, with `pepReady v`.) -/
+theorem C15_derived_parses (q : Pat) (v : VInfo) (hn : Pat.pepNormal q = true) (hs : Pat.pepParseable q = true)
+    (hv : Pat.vok v q = true) :
+    ∃ ver, pepOfRecord q v = some ver ∧ parsePep (Pat.render v q) = some ver ∧ wfPep ver = true :=
+  pp_derived_parses q v hn hs hv
+
+set_option maxRecDepth 100000 in
+/-- the derived tree of every README pattern has the parseable shape -/
+theorem C15_readme_derived_parseable :
+    readmeConversions.all (fun pq => match tokenize pq.1.toList with
+      | some p => p.toPep.pepParseable
+      | none => false) = true := by
+  decide +kernel
+
+/-- … SPELLED OUT in terms of the record ("same release numbers, same pre/post/dev segment and number"): the parsed
+    version has epoch 0 and no local part; its release is the number of the first component followed by the FIELD
+    VALUES (`partNum`: `major`, `minor`, `patch`, `month`, … ; BLD: the number of the build id) of the rendered
+    release parts; its pre / post / dev segment is the one of `pytag` with the number `num` when the tag is rendered
+    (`pepSegOf`: a, b, rc -> pre; post -> post; dev -> dev), and absent otherwise -/
+theorem C15_derived_content (q : Pat) (v : VInfo) (hn : Pat.pepNormal q = true) (hs : Pat.pepParseable q = true)
+    (hv : Pat.vok v q = true) :
+    ∃ ver, parsePep (Pat.render v q) = some ver ∧ ver.epoch = 0 ∧ ver.loc = none ∧
+      ver.release = strToNat (Pat.render v q.headComp) :: (Pat.relNames v q.afterHead).map (partNum v) ∧
+      (if q.afterHead.tagShown v = true then pepSegOf v.pytag v.num = some (ver.pre, ver.post, ver.dev)
+       else ver.pre = none ∧ ver.post = none ∧ ver.dev = none) :=
+  pp_derived_content q v hn hs hv
+
+/-- … from hypotheses on the ORIGINAL pattern and record (`C15_vok_transfer`), plus the static checks of the derived
+    tree that `C15_readme_derived_normal` / `C15_readme_derived_parseable` evaluate -/
+theorem C15_derived_parses_of_original (p : Pat) (v : VInfo) (hv : Pat.vok v p = true) (hready : pepReady v = true)
+    (hg : Pat.tagGuarded p = true) (hn : Pat.pepNormal p.toPep = true) (hs : Pat.pepParseable p.toPep = true) :
+    ∃ ver, pepOfRecord p.toPep v = some ver ∧ parsePep (Pat.render v p.toPep) = some ver ∧ wfPep ver = true :=
+  pp_derived_parses p.toPep v hn hs (C15_vok_transfer p v hv hready hg)
+
+/-! ## … and equals the version string as a PEP 440 version
+
+  `pepOfVersion p v`: the version the record denotes under the VERSION pattern `p` — a leading literal `v` does not
+  count, zero padding inside a component does not count (`2024.03`), the tag in its long or short form with or
+  without `-`, a release number that is not rendered is 0.  `Pat.pepShaped p` (Model/PepOfRecord.lean) is the static
+  relation between `p` and its derived tree: both have the parseable shape, every TAG sits in a group of tag /
+  number parts, the first component has the same parts up to a substitution of the FIRST one, and the release
+  skeleton (parts and optional groups, without literals and without the top-level tag groups) is the same up to
+  substituted part names.  `pepCoherent p v`: what the version string does not show has its default value (no tag
+  part: final; no NUM part: release number 0) — every record read from a version string satisfies it. -/
+
+/-- the ORIGINAL version string parses (vendored PEP 440 parser) to `pepOfVersion p v`: the `v` prefix, zero padding
+    (`2024.03`), the `-` separator, the long tag names `alpha` / `beta` and a missing release number (implicit 0)
+    are all normalised by the parser -/
+theorem C15_version_parses (p : Pat) (v : VInfo) (hs : Pat.pepParseable p.dropV = true) (hg : Pat.tagGuarded p = true)
+    (hv : Pat.vok v p = true) (hr : pepReady v = true) :
+    ∃ ver, pepOfVersion p v = some ver ∧ parsePep (Pat.render v p) = some ver ∧ wfPep ver = true :=
+  pp_version_parses p v hs hg hv hr
+
+/-- "… IS A VALID PEP 440 VERSION EQUAL TO IT": the version string and the text written for `{pep440_version}` parse to
+    THE SAME version (all fields equal, not only the sort key), which is the one the record denotes -/
+theorem C15_version_parses_equal (p : Pat) (v : VInfo) (hs : Pat.pepShaped p = true) (hv : Pat.vok v p = true)
+    (hr : pepReady v = true) (hc : pepCoherent p v = true) :
+    ∃ ver, pepOfRecord p.toPep v = some ver ∧ parsePep (Pat.render v p.toPep) = some ver ∧
+      parsePep (Pat.render v p) = some ver ∧ wfPep ver = true :=
+  pp_version_parses_equal p v hs hv hr hc
+
+/-- … in the form "equal as PEP 440 versions": equal comparison keys -/
+theorem C15_version_key_equal (p : Pat) (v : VInfo) (hs : Pat.pepShaped p = true) (hv : Pat.vok v p = true)
+    (hr : pepReady v = true) (hc : pepCoherent p v = true) :
+    ∃ ver ver', parsePep (Pat.render v p.toPep) = some ver ∧ parsePep (Pat.render v p) = some ver' ∧
+      pepKey ver' = pepKey ver := by
+  obtain ⟨ver, _, h2, h3, _⟩ := pp_version_parses_equal p v hs hv hr hc
+  exact ⟨ver, ver, h2, h3, rfl⟩
+
+/-- "… AND EQUALS THE `PEP440` VALUE PRINTED BY `test` / `show` UP TO PEP 440 NORMALISATION": the printed value is
+    `str(parse_version(version_string))` = `verStr (parseVersion …)`; it is the canonical text of the version that
+    the written `{pep440_version}` text parses to, and parses to that version itself -/
+theorem C15_equals_printed_pep440 (p : Pat) (v : VInfo) (hs : Pat.pepShaped p = true) (hv : Pat.vok v p = true)
+    (hr : pepReady v = true) (hc : pepCoherent p v = true) :
+    ∃ ver, parsePep (Pat.render v p.toPep) = some ver ∧
+      verStr (parseVersion (Pat.render v p)) = pepStr ver ∧ parsePep (pepStr ver) = some ver := by
+  obtain ⟨ver, _, h2, h3, h4⟩ := pp_version_parses_equal p v hs hv hr hc
+  exact ⟨ver, h2, by simp only [parseVersion, h3, verStr], parsePep_pepStr ver h4⟩
+
+set_option maxRecDepth 100000 in
+/-- every README pattern is `pepShaped` -/
+theorem C15_readme_shaped :
+    readmeConversions.all (fun pq => match tokenize pq.1.toList with
+      | some p => p.pepShaped
+      | none => false) = true := by
+  decide +kernel
+
+set_option maxRecDepth 100000 in
+/-- WITNESSES (why `pepCoherent`): the record carries a release number / a tag that the version string does not show.
+    (1) `YYYY.BUILD[-TAG]`, beta with release number 4: the version string is "2024.1001-beta" (= 2024.1001b0), the
+    `{pep440_version}` text is "2024.1001b4";  (2) `YYYY.0M`, tag beta: "2024.03" against "2024.3b0".  Everything
+    else holds (shape, domain, `pepReady`); the parsed versions have different keys. -/
+theorem C15_coherent_witnesses :
+    let v1 : VInfo := { cal := (calInfo 2024 3 9).toOpt, major := 0, minor := 0, patch := 0, bid := "1001".toList,
+                        tag := "beta".toList, pytag := "b".toList, num := 4, inc0 := 0, inc1 := 1 }
+    let v2 : VInfo := { v1 with num := 0 }
+    (match tokenize "YYYY.BUILD[-TAG]".toList, tokenize "YYYY.0M".toList with
+     | some p1, some p2 =>
+       p1.pepShaped && p1.vok v1 && pepReady v1 && !pepCoherent p1 v1 &&
+       (p1.render v1 == "2024.1001-beta".toList) && (p1.toPep.render v1 == "2024.1001b4".toList) &&
+       ((parsePep (p1.render v1)).map pepKey != (parsePep (p1.toPep.render v1)).map pepKey) &&
+       p2.pepShaped && p2.vok v2 && pepReady v2 && !pepCoherent p2 v2 &&
+       (p2.render v2 == "2024.03".toList) && (p2.toPep.render v2 == "2024.3b0".toList) &&
+       ((parsePep (p2.render v2)).map pepKey != (parsePep (p2.toPep.render v2)).map pepKey)
+     | _, _ => false) = true := by
+  decide +kernel
+
+set_option maxRecDepth 100000 in
+/-- WITNESS (why the release skeleton must be the same): `MAJOR.MINOR[.PATCH[-TAG]]` is not `pepShaped`.  The derived
+    tree is `MAJOR.MINOR[.PATCH][PYTAGNUM]` (the tag group leaves the PATCH group), so for 1.2.0-beta the version
+    string is "1.2.0-beta" (release 1.2.0) and the written text "1.2b0" (release 1.2): two DIFFERENT versions with
+    EQUAL comparison keys (trailing zeros are stripped by `_cmpkey`). -/
+theorem C15_skeleton_witness :
+    let v : VInfo := { cal := (calInfo 2024 3 9).toOpt, major := 1, minor := 2, patch := 0, bid := "1001".toList,
+                       tag := "beta".toList, pytag := "b".toList, num := 0, inc0 := 0, inc1 := 1 }
+    (match tokenize "MAJOR.MINOR[.PATCH[-TAG]]".toList with
+     | some p =>
+       !p.pepShaped && p.vok v && pepReady v && pepCoherent p v && p.toPep.vok v &&
+       (p.render v == "1.2.0-beta".toList) && (p.toPep.render v == "1.2b0".toList) &&
+       (parsePep (p.render v) != parsePep (p.toPep.render v)) &&
+       ((parsePep (p.render v)).map pepKey == (parsePep (p.toPep.render v)).map pepKey)
+     | none => false) = true := by
+  decide +kernel
+
+set_option maxRecDepth 100000 in
+/-- NON-VACUITY: 2024-03-09, BUILD 0013, beta (release number 0) under `vYYYY0M.BUILD[-TAG]` satisfies every hypothesis
+    of `C15_version_parses_equal`; the version string "v202403.0013-beta" and the written text "202403.13b0" both
+    parse to release 202403.13, pre-release b0 — the value of `pepOfRecord` -/
+example :
+    let v : VInfo := { cal := (calInfo 2024 3 9).toOpt, major := 0, minor := 0, patch := 0, bid := "0013".toList,
+                       tag := "beta".toList, pytag := "b".toList, num := 0, inc0 := 0, inc1 := 1 }
+    let ver : PepVersion := { epoch := 0, release := [202403, 13], pre := some ("b".toList, 0), post := none,
+                              dev := none, loc := none }
+    (match tokenize "vYYYY0M.BUILD[-TAG]".toList with
+     | some p => p.pepShaped && p.vok v && pepReady v && pepCoherent p v &&
+                 (p.render v == "v202403.0013-beta".toList) && (p.toPep.render v == "202403.13b0".toList) &&
+                 (pepOfRecord p.toPep v == some ver) && (pepOfVersion p v == some ver) &&
+                 (parsePep (p.render v) == some ver) && (parsePep (p.toPep.render v) == some ver)
+     | none => false) = true := by
+  decide +kernel
+
+set_option maxRecDepth 100000 in
+/-- WITNESS ("up to PEP 440 normalisation" is needed): for post and dev releases the written text is NOT the canonical
+    text that `test` / `show` print — bumpver writes "1.2.3post0", the printed `PEP440` value is "1.2.3.post0"; both
+    parse to the same version.  (For a / b / rc and final releases of this pattern the two texts coincide.) -/
+theorem C15_post_spelling_witness :
+    let v : VInfo := { cal := (calInfo 2024 3 9).toOpt, major := 1, minor := 2, patch := 3, bid := "1001".toList,
+                       tag := "post".toList, pytag := "post".toList, num := 0, inc0 := 0, inc1 := 1 }
+    (match tokenize "MAJOR.MINOR.PATCH[PYTAGNUM]".toList with
+     | some p => p.pepShaped && p.vok v && pepReady v && pepCoherent p v &&
+                 (p.toPep.render v == "1.2.3post0".toList) &&
+                 (verStr (parseVersion (p.render v)) == "1.2.3.post0".toList) &&
+                 (parsePep (p.toPep.render v) == parsePep "1.2.3.post0".toList)
+     | none => false) = true := by
   decide +kernel
 
 end BV
